@@ -209,7 +209,7 @@ struct SIMDVector<int64_t,simd_abi::avx512> {
 
     FASTOR_INLINE int64_t minimum() {
         const int64_lane_t *vals = reinterpret_cast<const int64_lane_t*>(&value);
-        int64_t quan = 0;
+        int64_t quan = vals[0];
         for (FASTOR_INDEX i=0; i<Size; ++i)
             if (vals[i]<quan)
                 quan = vals[i];
@@ -217,7 +217,7 @@ struct SIMDVector<int64_t,simd_abi::avx512> {
     }
     FASTOR_INLINE int64_t maximum() {
         const int64_lane_t *vals = reinterpret_cast<const int64_lane_t*>(&value);
-        int64_t quan = 0;
+        int64_t quan = vals[0];
         for (FASTOR_INDEX i=0; i<Size; ++i)
             if (vals[i]>quan)
                 quan = vals[i];
@@ -558,7 +558,7 @@ struct SIMDVector<int64_t,simd_abi::avx> {
 
     FASTOR_INLINE int64_t minimum() {
         const int64_lane_t *vals = reinterpret_cast<const int64_lane_t*>(&value);
-        int64_t quan = 0;
+        int64_t quan = vals[0];
         for (FASTOR_INDEX i=0; i<Size; ++i)
             if (vals[i]<quan)
                 quan = vals[i];
@@ -566,7 +566,7 @@ struct SIMDVector<int64_t,simd_abi::avx> {
     }
     FASTOR_INLINE int64_t maximum() {
         const int64_lane_t *vals = reinterpret_cast<const int64_lane_t*>(&value);
-        int64_t quan = 0;
+        int64_t quan = vals[0];
         for (FASTOR_INDEX i=0; i<Size; ++i)
             if (vals[i]>quan)
                 quan = vals[i];
@@ -877,7 +877,7 @@ struct SIMDVector<int64_t,simd_abi::sse> {
 
     FASTOR_INLINE int64_t minimum() {
         const int64_lane_t *vals = reinterpret_cast<const int64_lane_t*>(&value);
-        int64_t quan = 0;
+        int64_t quan = vals[0];
         for (FASTOR_INDEX i=0; i<Size; ++i)
             if (vals[i]<quan)
                 quan = vals[i];
@@ -885,7 +885,7 @@ struct SIMDVector<int64_t,simd_abi::sse> {
     }
     FASTOR_INLINE int64_t maximum() {
         const int64_lane_t *vals = reinterpret_cast<const int64_lane_t*>(&value);
-        int64_t quan = 0;
+        int64_t quan = vals[0];
         for (FASTOR_INDEX i=0; i<Size; ++i)
             if (vals[i]>quan)
                 quan = vals[i];
